@@ -262,7 +262,15 @@ def run_check(prop, tier, seed, spec):
     t0 = time.time()
     ctx = Ctx(prop, tier, seed)
     build_harness()
-    spec["run"](ctx)
+    try:
+        spec["run"](ctx)
+    except ToolError as e:
+        # a later stage of the check could not run (typically a self-test that assumes the part of
+        # the implementation it exercises to be intact): what was already found is reported
+        if not ctx.violations:
+            raise
+        ctx.notes.append(f"a later stage ended with a tool error after violations had been found: {str(e)[:500]}")
+        print(f"NOTE property={prop}: a later stage of the check ended with a tool error ({str(e)[:200]}); reporting the violations found before it")
     wall = time.time() - t0
     write_evidence(ctx, spec["level"], wall, spec["rule"], spec["assumptions"])
     known = {f["key"]: f for f in load_known()["findings"]}
